@@ -678,10 +678,16 @@ impl<W: Word, B: AsRef<[W]> + AsMut<[W]>> BitFieldSliceMut<W> for BitFieldVec<W,
         }
         let bit_width = self.bit_width();
         if bit_width == 0 {
+            // All values are zero, but the function must still be applied
+            // once per element
+            for _ in 0..self.len() {
+                f(W::ZERO);
+            }
             return;
         }
         let mask = self.mask();
-        let number_of_words: usize = self.bits.as_ref().len();
+        // Only the words containing elements: the backend might be longer
+        let number_of_words: usize = (self.len() * bit_width).div_ceil(W::BITS);
         let last_word_idx = number_of_words.saturating_sub(1);
 
         let mut write_buffer: W = W::ZERO;
@@ -711,7 +717,11 @@ impl<W: Word, B: AsRef<[W]> + AsMut<[W]>> BitFieldSliceMut<W> for BitFieldVec<W,
 
                     let value = read_buffer & mask;
                     // throw away the bits we just read
-                    read_buffer >>= bit_width;
+                    read_buffer = if bit_width == W::BITS {
+                        W::ZERO
+                    } else {
+                        read_buffer >> bit_width
+                    };
                     // apply user func
                     let new_value = f(value);
                     // put the new value in the write buffer
@@ -727,11 +737,22 @@ impl<W: Word, B: AsRef<[W]> + AsMut<[W]>> BitFieldSliceMut<W> for BitFieldVec<W,
                 bits_in_buffer = 0;
             }
 
+            // bits of the last word beyond the last element must be preserved
+            let unused_bits = if buffer_limit == W::BITS {
+                W::ZERO
+            } else {
+                read_buffer & (W::MAX << buffer_limit)
+            };
+
             // write the last word if we have some bits left
             while bits_in_buffer < buffer_limit {
                 let value = read_buffer & mask;
                 // throw away the bits we just read
-                read_buffer >>= bit_width;
+                read_buffer = if bit_width == W::BITS {
+                    W::ZERO
+                } else {
+                    read_buffer >> bit_width
+                };
                 // apply user func
                 let new_value = f(value);
                 // put the new value in the write buffer
@@ -740,7 +761,7 @@ impl<W: Word, B: AsRef<[W]> + AsMut<[W]>> BitFieldSliceMut<W> for BitFieldVec<W,
                 bits_in_buffer += bit_width;
             }
 
-            *self.bits.as_mut().get_unchecked_mut(last_word_idx) = write_buffer;
+            *self.bits.as_mut().get_unchecked_mut(last_word_idx) = write_buffer | unused_bits;
             return;
         }
 
@@ -813,6 +834,12 @@ impl<W: Word, B: AsRef<[W]> + AsMut<[W]>> BitFieldSliceMut<W> for BitFieldVec<W,
             // We set the element in the new word.
             write_buffer |= new_element << offset;
             offset += bit_width;
+        }
+
+        // bits of the last word beyond the last element must be preserved
+        let used_bits = self.len() * bit_width - lower_word_limit;
+        if used_bits < W::BITS {
+            write_buffer |= read_buffer & (W::MAX << used_bits);
         }
 
         *self.bits.as_mut().get_unchecked_mut(last_word_idx) = write_buffer;
